@@ -20,6 +20,8 @@ CONSTANTS Names, Hashes, SymOK, NoRemove,      \* as in RefMap
           ShallowSets,  \* possible arguments of SetShallow (sets of commit symbols)
           CfgVals,      \* configuration symbols other than the initial one
           Inits,        \* initial states
+          Focus,        \* "all": every operation at every step;  "packalt": reference operations with a
+                        \*  PackRefs after each one (re-packing histories: loose and packed layers alternate)
           MaxOps, EmitAll
 
 None == "none"
@@ -52,13 +54,16 @@ SetIndex(i)     == Do("setindex", i, None, None, "ok", [st EXCEPT !.idx = i])
 SetShallow(S)   == Do("setshallow", S, None, None, "ok", [st EXCEPT !.shallow = S])
 SetConfig(c)    == Do("setconfig", c, None, None, "ok", [st EXCEPT !.cfg = c])
 
+RefOp == \/ \E n \in Names, h \in Hashes : SetRef(n, h)
+         \/ \E p \in SymOK : SetRef(p[1], Sym(p[2]))
+         \/ \E n \in Names, h \in Hashes, o \in Hashes : CAS(n, h, o)
+         \/ \E n \in Names \ NoRemove : RemoveRef(n)
+
 Next ==
   /\ Len(hist) < MaxOps
   /\ UNCHANGED init
-  /\ \/ \E n \in Names, h \in Hashes : SetRef(n, h)
-     \/ \E p \in SymOK : SetRef(p[1], Sym(p[2]))
-     \/ \E n \in Names, h \in Hashes, o \in Hashes : CAS(n, h, o)
-     \/ \E n \in Names \ NoRemove : RemoveRef(n)
+  /\ IF Focus = "packalt" THEN (IF Len(hist) % 2 = 1 THEN Pack ELSE RefOp) ELSE
+     \/ RefOp
      \/ Pack
      \/ \E o \in Objects : SetObj(o)
      \/ \E S \in PackSets : AddPack(S)
